@@ -209,7 +209,8 @@ func UnmarshalValue(span herrors.Span, self interface{}) (*Value, *VmInterrupt) 
 		}
 		return NewValueList(values), nil
 	case nil:
-		return NewNoneOption(), nil
+		// Without a type, JSON `null` is the null value (a cast to an option type turns it into `none`).
+		return NewValueNull(), nil
 	default:
 		return nil, NewVMFatalException(fmt.Sprintf("Cannot parse unknown JSON value: `%v` (%v) to HMS value", self, reflect.TypeOf(self)), Vm_JsonErrorKind, span)
 	}
